@@ -65,6 +65,8 @@ func (b *Buffer) VerifOp(op string, x, y int) {
 		b.swapBuffers()
 	case "reverse":
 		b.Reverse()
+	case "reverseClusters":
+		b.reverseClusters()
 	default:
 		panic("unknown verification op " + op)
 	}
